@@ -68,6 +68,7 @@ class Cli:
         self.initialized = False
         self.models_data: Dict[str, Iterable[dict]] = {}  # -m/-l
         self.enable_datetime: bool = False  # --datetime
+        self.disable_str_serializable_types: List[str] = []  # --disable-str-serializable-types
         self.strings_converters: bool = False  # --strings-converters
         self.max_literals: int = -1  # --max-strings-literals
         self.merge_policy: List[ModelCmp] = []  # --merge
@@ -103,17 +104,23 @@ class Cli:
         dict_keys_fields: List[str] = namespace.dict_keys_fields
         preamble: str = namespace.preamble
 
-        for name in namespace.disable_str_serializable_types:
-            registry.remove_by_name(name)
+        self.disable_str_serializable_types = namespace.disable_str_serializable_types
+        self._disable_str_serializable_types()
 
         self.setup_models_data(namespace.model or (), namespace.list or (), parser)
         self.validate(merge_policy, framework, code_generator)
         self.set_args(merge_policy, structure, framework, code_generator, code_generator_kwargs_raw,
                       dict_keys_regex, dict_keys_fields, disable_unicode_conversion, preamble)
 
+    def _disable_str_serializable_types(self):
+        for name in self.disable_str_serializable_types:
+            registry.remove_by_name(name)
+
     def run(self):
         if self.enable_datetime:
             register_datetime_classes()
+            # datetime classes are registered only now, so disabled ones have to be removed (again)
+            self._disable_str_serializable_types()
         generator = MetadataGenerator(
             dict_keys_regex=self.dict_keys_regex,
             dict_keys_fields=self.dict_keys_fields
